@@ -32,7 +32,8 @@ Calls == <<
   Call("Real(Fraction(1,2))", Half, "real", "1/2"), Call("Real(0.5)", Half, "real", "1/2"),
   Call("Real((1,2))", Half, "real", "(1,2)"), Call("Real((2,4))", Half, "real", "(2,4)"),
   Call("BV(2,2)", BVC(2, 2), "", ""), Call("BV('10')", BVC(2, 2), "", ""), Call("BV('#b10')", BVC(2, 2), "", ""),
-  Call("SBV(-2,2)", BVC(2, 2), "", ""), Call("BV(2,3)", BVC(2, 3), "", ""),
+  Call("SBV(-2,2)", BVC(2, 2), "", ""), Call("SBV(-4,3)", BVC(4, 3), "", ""), Call("SBV(-1,1)", BVC(1, 1), "", ""), Call("SBV(3,3)", BVC(3, 3), "", ""),
+  Call("SBV(-128,8)", BVC(128, 8), "", ""), Call("BV(128,8)", BVC(128, 8), "", ""), Call("SBV(-1,8)", BVC(255, 8), "", ""), Call("BV(2,3)", BVC(2, 3), "", ""),
   Call("String('a')", StrC(<<97>>), "str", "a"), Call("Bool(True)", BoolC(TRUE), "", ""), Call("TRUE()", BoolC(TRUE), "", ""),
   Call("Symbol(p)", P, "sym", "p"), Call("Symbol(x,INT)", X, "sym", "x"),
   Call("And(p,q)", AndPQ, "", ""), Call("And([p,q])", AndPQ, "", ""), Call("And((p,q))", AndPQ, "", ""),
